@@ -493,6 +493,7 @@ func (in *Interp) callFn(fn *ssa.Function, args []AVal, bind []AVal) AVal {
 			if fr.snap[b] != nil && in.SnapshotPC {
 				in.Emit("loop-back", b.Instrs[0])
 			}
+			orig := append([]AVal{}, phiVals...)
 			old := fr.snap[b]
 			if old == nil && in.EagerWiden {
 				for i, ph := range phis {
@@ -522,6 +523,20 @@ func (in *Interp) callFn(fn *ssa.Function, args []AVal, bind []AVal) AVal {
 				for k := range in.pc {
 					if strings.Contains(k, loopID) {
 						delete(in.pc, k)
+					}
+				}
+			}
+			// relational repair after widening: a loop-carried variable that held "the kind of X"
+			// (k := x.Kind()) where X is another loop-carried value keeps that relation to the
+			// widened X (for k == Slice || k == Array { x = x.Elem(); k = x.Kind() })
+			for i := range phis {
+				t, isTok := orig[i].(Tok)
+				if !isTok || t.Dom != "kindof" || keyOf(phiVals[i]) == keyOf(orig[i]) {
+					continue
+				}
+				for j := range phis {
+					if j != i && stripTypeSuffix(keyOf(orig[j])) == t.Name {
+						phiVals[i] = Tok{Dom: "kindof", Name: stripTypeSuffix(keyOf(phiVals[j])), Args: t.Args}
 					}
 				}
 			}
@@ -1315,4 +1330,13 @@ func (t Trace) Describe() string {
 		fmt.Fprintf(&sb, "%s=%d", k, t.PC[k])
 	}
 	return sb.String()
+}
+
+
+// stripTypeSuffix: "X.Type()" denotes the same kind as X (kind-alias classes).
+func stripTypeSuffix(k string) string {
+	for strings.HasSuffix(k, ".Type()") {
+		k = strings.TrimSuffix(k, ".Type()")
+	}
+	return k
 }
